@@ -97,10 +97,11 @@ IsErrorCode(b) == b >= 128
 
 \* well-formedness of the transcription: one name per number, one number per name
 Functional(rows) == \A r, s \in rows : (r[1] = s[1] \/ r[2] = s[2]) => r = s
-WellFormed == /\ Functional(OptionRows) /\ Functional(ContentFormatRows)
-              /\ Functional(MethodRows \cup ResponseRows) /\ Functional(TypeRows)
-              /\ Functional(ObserveRows)
-              /\ \A r \in OptionRows \cup ContentFormatRows : r[1] \in 0 .. 65535
-              /\ \A r \in MethodRows \cup ResponseRows : r[1] \in 1 .. 255
-              /\ \A r \in ResponseRows : IsErrorCode(r[1]) <=> r[1] \div 32 \in {4, 5}
+RegistryWellFormed ==
+  /\ Functional(OptionRows) /\ Functional(ContentFormatRows)
+  /\ Functional(MethodRows \cup ResponseRows) /\ Functional(TypeRows)
+  /\ Functional(ObserveRows)
+  /\ \A r \in OptionRows \cup ContentFormatRows : r[1] \in 0 .. 65535
+  /\ \A r \in MethodRows \cup ResponseRows : r[1] \in 1 .. 255
+  /\ \A r \in ResponseRows : IsErrorCode(r[1]) <=> r[1] \div 32 \in {4, 5}
 =============================================================================
